@@ -70,7 +70,7 @@ func hasBackendGuard(fd *ast.FuncDecl) int {
 
 // Facts of hub.go / session.go / virtualsession.go / backend_server.go used by the hub model (C03–C07, C19).
 func genHub(c *ctx) *leanFile {
-	l := c.newLean("Hub", "hub.go", "session.go", "virtualsession.go", "backend_server.go", "clientsession.go")
+	l := c.newLean("Hub", "hub.go", "session.go", "virtualsession.go", "backend_server.go", "room.go")
 	sess := c.file("session.go")
 	scope := pkgValues(sess)
 
@@ -149,6 +149,12 @@ func genHub(c *ctx) *leanFile {
 		})
 	}
 	l.boolean("selfKickGuarded", selfGuard, findFunc(hub, "Hub", "disconnectByRoomSessionId") != nil, "disconnectByRoomSessionId not found")
+
+	// incall requests only mark members of the room
+	room := c.file("room.go")
+	srcIC, okIC := c.funcSource("room.go", "Room", "PublishUsersInCallChanged")
+	_ = room
+	l.boolean("inCallMembersOnly", okIC && strings.Contains(srcIC, "HasSession"), okIC, "Room.PublishUsersInCallChanged not found")
 
 	// Hub.virtualSessions entry removed when a virtual session is closed by any path
 	src, okV := c.funcSource("virtualsession.go", "VirtualSession", "CloseWithFeedback")
